@@ -197,7 +197,7 @@ theorem C12_new_tag_fresh (ks : List String) (base t : String) (h : newTag ks ba
     omega
   · cases h
 
-example : newTag ["ma1", "c1", "ma2"] "ma" = .ok "ma3" := by decide +kernel
+example : (newTag ["ma1", "c1", "ma2"] "ma").toOption = some "ma3" := by decide +kernel
 
 /-- **The naming scheme.**  The name parts of a clone are the name parts of the framer of its main frame followed by
 its own tag (`surname = "_".join(parts)`, the clone is then named `surname_tag` by its main framer). -/
@@ -226,9 +226,9 @@ an entry of that frame's aux list that is insular and razeable. -/
 theorem C12_raze_selects_only_razeable_insular (s : St) (who : Who) (auxes : List Nat) (a : Nat)
     (h : a ∈ razeables s who auxes) :
     a ∈ auxes ∧ ∃ o, s.get? a = some o ∧ o.insular = true ∧ o.razeable = true := by
-  have key : ∀ x, (match s.get? x with | some o => o.insular && o.razeable | none => false) = true →
-      ∃ o, s.get? x = some o ∧ o.insular = true ∧ o.razeable = true := by
+  have key : ∀ x, isRazeable s x = true → ∃ o, s.get? x = some o ∧ o.insular = true ∧ o.razeable = true := by
     intro x hx
+    unfold isRazeable at hx
     cases hg : s.get? x with
     | none => simp [hg] at hx
     | some o => simp [hg] at hx; exact ⟨o, rfl, hx.1, hx.2⟩
@@ -246,10 +246,9 @@ theorem C12_raze_selects_only_razeable_insular (s : St) (who : Who) (auxes : Lis
 
 /-- `raze all` selects all of them, `raze first` / `raze last` the first / last one in the aux list -/
 theorem C12_raze_all_first_last (s : St) (auxes : List Nat) :
-    let ok := fun a => match s.get? a with | some o => o.insular && o.razeable | none => false
-    razeables s .all auxes = auxes.filter ok ∧
-    razeables s .first auxes = ((auxes.filter ok).head?).toList ∧
-    razeables s .last auxes = ((auxes.filter ok).getLast?).toList := by
+    razeables s .all auxes = auxes.filter (isRazeable s) ∧
+    razeables s .first auxes = ((auxes.filter (isRazeable s)).head?).toList ∧
+    razeables s .last auxes = ((auxes.filter (isRazeable s)).getLast?).toList := by
   refine ⟨rfl, ?_, ?_⟩
   · simp [razeables, List.head?_filter]
   · simp [razeables, List.getLast?_filter]
@@ -263,9 +262,9 @@ theorem C12_unregister_frees_name (s : St) (o : Fr) :
     (∀ n, n ≠ o.name → lookup (unregister s o).names n = lookup s.names n) := by
   unfold unregister
   by_cases h : lookup s.names o.name = some o.uid
-  · simp only [h, if_true]
+  · rw [if_pos h]
     refine ⟨by rw [lookup_erase_self]; simp, fun _ => lookup_erase_self _ _, fun n hn => lookup_erase_other _ _ _ hn⟩
-  · simp only [h, if_false]
+  · rw [if_neg h]
     exact ⟨h, fun e => absurd e h, fun _ _ => rfl⟩
 
 theorem C12_pruned_name_freed (lo : Ops) (u : Nat) (s s' : St) (me : Fr) (hme : s.get? u = some me)
